@@ -64,17 +64,28 @@ func TestC14(t *testing.T) {
 		label      string
 		serverName string
 		toVerify   string
+		// edit: after an explicit BuildHandshakeState the caller calls SetSNI(edit) (hasEdit),
+		// which also changes Config.ServerName, the default verification name
+		edit    string
+		hasEdit bool
 	}
 	names := []nameSetting{
-		{"servername-match", "good.example.test", ""},
-		{"servername-mismatch", "nomatch.example.test", ""},
-		{"star", "nomatch.example.test", "*"},
-		{"override-match", "nomatch.example.test", "alt.example.test"},
-		{"override-mismatch", "good.example.test", "nomatch.example.test"},
+		{label: "servername-match", serverName: "good.example.test", toVerify: ""},
+		{label: "servername-mismatch", serverName: "nomatch.example.test", toVerify: ""},
+		{label: "star", serverName: "nomatch.example.test", toVerify: "*"},
+		{label: "override-match", serverName: "nomatch.example.test", toVerify: "alt.example.test"},
+		{label: "override-mismatch", serverName: "good.example.test", toVerify: "nomatch.example.test"},
 		// verification names that never go on the wire (no server_name for IP literals)
-		{"ip-literal-match", "192.0.2.7", ""},
-		{"ip-literal-mismatch", "192.0.2.9", ""},
-		{"ip6-literal-mismatch", "2001:db8::9", ""},
+		{label: "ip-literal-match", serverName: "192.0.2.7", toVerify: ""},
+		{label: "ip-literal-mismatch", serverName: "192.0.2.9", toVerify: ""},
+		{label: "ip6-literal-mismatch", serverName: "2001:db8::9", toVerify: ""},
+		// the name is changed after the hello was built: to names the certificate does not cover,
+		// to an IP literal, to nothing
+		{label: "edited-to-mismatch", serverName: "good.example.test", edit: "nomatch.example.test", hasEdit: true},
+		{label: "edited-to-ip", serverName: "good.example.test", edit: "192.0.2.1", hasEdit: true},
+		{label: "edited-to-ip6", serverName: "good.example.test", edit: "[2001:db8::1]", hasEdit: true},
+		{label: "edited-to-empty", serverName: "good.example.test", edit: "", hasEdit: true},
+		{label: "edited-to-empty-with-star", serverName: "good.example.test", toVerify: "*", edit: "", hasEdit: true},
 	}
 	var targets []Target
 	if mon.Thorough() {
@@ -110,6 +121,9 @@ func TestC14(t *testing.T) {
 	verifyNameOf := func(ns nameSetting) string {
 		if ns.toVerify != "" {
 			return ns.toVerify
+		}
+		if ns.hasEdit {
+			return ns.edit
 		}
 		return ns.serverName
 	}
@@ -176,6 +190,13 @@ func TestC14(t *testing.T) {
 		scfg.MaxVersion = j.maxv
 		scfg.Certificates = []tls.Certificate{leaves[j.c.name]}
 		clock := now
+		if j.ns.hasEdit {
+			if j.t.Pre != nil || j.mode != "fresh" {
+				return // the edit cases are fresh handshakes of the plain targets
+			}
+			name := j.ns.edit
+			j.t.Edit = func(u *tls.UConn) error { u.SetSNI(name); return nil }
+		}
 		mkCfg := func(ns nameSetting, skipTime, skipVerify bool, cache tls.ClientSessionCache) func(c *tls.Config) {
 			return func(c *tls.Config) {
 				c.ServerName = ns.serverName
@@ -195,7 +216,7 @@ func TestC14(t *testing.T) {
 		} else {
 			// a permissive first connection stores a session; the second one uses the config under test
 			cache := tls.NewLRUClientSessionCache(4)
-			perm := nameSetting{"perm", j.ns.serverName, "*"}
+			perm := nameSetting{label: "perm", serverName: j.ns.serverName, toVerify: "*"}
 			skipV := !j.c.trusted
 			h0 := RunCase(j.t, GridCase{Server: scfg}, j.ns.serverName, func(c *tls.Config) {
 				mkCfg(perm, true, skipV, cache)(c)
